@@ -80,6 +80,8 @@ class World:
                     gn = gn.map_over("acc" if shape.get("swap") else "inp", "mark", clone=list(cl) if isinstance(cl, list) else bool(cl))   # every item is a run of the nested graph
                 if shape.get("mapped") and ra == "after":
                     gn = gn.with_inputs(aux="helper")
+                if shape.get("mapped") and ra == "swap":
+                    gn = gn.with_inputs(aux="aux2", aux2="aux")      # ONE call exchanging the cloned and the shared broadcast input
                 g = Graph([gn] + ([side] if shape.get("side") else []))
             else:
                 g = Graph([node] + ([side] if shape.get("side") else []))
@@ -223,6 +225,9 @@ def replay_mapped(n, is_async, bind_at, via_runner_map, clone=False, swap=False,
     inps = [[] for _ in marks]
     w.aux, w.aux2 = ["aux"], ["aux2"]          # broadcast values owned by the caller
     values = {("acc" if swap and not via_runner_map else "inp"): inps, "mark": marks, ("helper" if rename_aux else "aux"): w.aux, "aux2": w.aux2}
+    if rename_aux == "swap":
+        values.pop("helper")
+        values.update(aux2=w.aux, aux=w.aux2)
     # ONE runner per kind serves all these replays (graphs whose mapping node has the same name but another
     # configuration follow each other on it): nothing a runner keeps may carry over from one graph to the next
     runner = _SHARED_RUNNERS.setdefault(is_async, AsyncRunner() if is_async else SyncRunner())
@@ -264,6 +269,37 @@ def verdicts_mapped(ctx, w, inps, marks, res, wit):
                 return ctx.violation("broadcast-value-copied", wit, f"item {r}: {name} is not named by clone={cl} but the node received a copy")
     if sorted(w.bound_obj) != marks:
         return ctx.violation("bound-object-not-shared", wit, f"bound object holds {w.bound_obj}, expected {marks}")
+    return False
+
+
+def map_over_default(ctx, is_async):
+    """A mapping node whose MAPPED parameter is not supplied: it maps over the inner function's signature default (a list of
+    mutable items).  The items belong to the function's default object: every run maps over fresh copies."""
+    seen = []
+
+    def work(tag, slot=[[], [], []]):        # noqa: B006 - on purpose
+        seen.append((tag, list(slot)))
+        slot.append(tag)
+        return len(slot)
+
+    with warnings.catch_warnings():
+        warnings.simplefilter("ignore")
+        inner = Graph([FunctionNode(work, name="work", output_name="n")], name="inner")
+        g = Graph([inner.as_node().map_over("slot")])
+        runner = _SHARED_RUNNERS.setdefault(is_async, AsyncRunner() if is_async else SyncRunner())
+        results = []
+        for tag in (1, 2, 3):
+            call = runner.run(g, {"tag": tag})
+            r = asyncio.run(call) if is_async else call
+            results.append((r.status.value, r.values.get("n")))
+    ctx.count()
+    ctx.traces()
+    wit = {"shape": "map over a defaulted parameter", "runner": "async" if is_async else "sync", "seen": seen, "results": results,
+           "defaults_now": repr(work.__defaults__)}
+    if work.__defaults__ != ([[], [], []],):
+        return ctx.violation("signature-default-mutated", wit, f"the function's own default object now holds {work.__defaults__}")
+    if any(items for _, items in seen) or [r for r in results if r != ("completed", [1, 1, 1])]:
+        return ctx.violation("state-leaked-between-runs", wit, f"items seen {seen}, results {results}: every run maps over three fresh empty lists")
     return False
 
 
@@ -369,12 +405,14 @@ def run(tier, seed):
         for is_async in (False, True):
             for bind_at in ("outer", "inner", "inner_renamed"):
                 for via in (False, True):
-                    for clone in (False, True, ["aux2"], ["aux", "aux2"]):
+                    for clone in (False, True, ["aux2"], ["aux"], ["aux", "aux2"]):
                         if clone is True and bind_at == "outer" and not via:
                             continue      # clone=True asks for copies of ALL broadcast values of the mapping node; a value bound on the OUTER graph is one of them
                         swap = (not via) and clone is False and (n + len(bind_at)) % 2 == 0
                         # a clone LIST of which one entry is renamed on the wrapper (before / after map_over) and one is not
-                        ra = None if via or not isinstance(clone, list) else (None, "before", "after")[(n + len(bind_at) + len(clone)) % 3]
+                        ra = None if via or not isinstance(clone, list) else (None, "before", "after")[(n + len(bind_at) + len(clone) + is_async) % 3]
+                        if ra is not None and clone == ["aux"] and n == 3:
+                            ra = "swap"
                         wit = {"items": n, "runner": "async" if is_async else "sync", "bind_at": bind_at, "via": "runner.map" if via else "mapping GraphNode", "clone": clone, "swap": swap, "rename_aux": ra}
                         out = replay_mapped(n, is_async, bind_at, via, clone, swap, ra)
                         ctx.count()
@@ -384,6 +422,7 @@ def run(tier, seed):
                         verdicts_mapped(ctx, *out, wit)
     ctx.bump("map_item_replays", n_map)
     for is_async in (False, True):
+        map_over_default(ctx, is_async)
         for renamed in (False, True):
             twin_wrappers(ctx, is_async, renamed)
     ctx.bump("interleaved_async_replays", n_async)
